@@ -12,7 +12,32 @@ import math
 # JSON encoding of element values
 # ----------------------------------------------------------------------------
 
+class IntSub(int):
+    """an instance of a strict subclass of int (an IntEnum member, a numpy-like integer)"""
+
+
+class StrSub(str):
+    pass
+
+
+class FloatSub(float):
+    pass
+
+
+class TCell(tuple):
+    """generator-side marker: a tuple that is one cell value (encoded so that it comes back a plain tuple)"""
+
+
+SUBS = {IntSub: int, StrSub: str, FloatSub: float}
+_SUB_BY_NAME = {c.__name__: c for c in SUBS}
+SUB_OF_KIND = {"int": IntSub, "str": StrSub, "float": FloatSub}
+
+
 def enc(v):
+    if type(v) in SUBS:
+        return {"sub": type(v).__name__, "v": enc(SUBS[type(v)](v))}
+    if type(v) is TCell:
+        return {"tup": [enc(x) for x in v]}
     if v is None or isinstance(v, (bool, str)):
         return v
     if isinstance(v, int):
@@ -42,6 +67,10 @@ def enc(v):
 
 def dec(j):
     if isinstance(j, dict):
+        if "tup" in j:
+            return tuple(dec(x) for x in j["tup"])
+        if "sub" in j:
+            return _SUB_BY_NAME[j["sub"]](dec(j["v"]))
         if "f" in j:
             return float(j["f"])
         if "c" in j:
@@ -171,6 +200,8 @@ def tv(e):
     t = type(e)
     if t in (int, float, bool, str, complex, type(None), bytes, bytearray):
         return (t.__name__, repr(e))
+    if t in SUBS:
+        return (t.__name__, repr(SUBS[t](e)))
     if isinstance(e, (_dt.date, _dt.datetime)):
         return (t.__name__, e.isoformat())
     if isinstance(e, (list, tuple)):
